@@ -3,6 +3,7 @@ package PKG
 // Helpers shared by the harnesses that live in package fast.
 
 import (
+	"go/ast"
 	r "reflect"
 
 	xr "github.com/cosmos72/gomacro/xreflect"
@@ -105,3 +106,9 @@ func vhRunStmt(stmt Stmt, env *Env) (ok bool, panicked bool) {
 	s(e)
 	return hit, false
 }
+
+// model of Comp.expr1 for harnesses that hand sub-expressions to a real statement / call compiler: the argument node is
+// looked up in a table filled by the harness
+var vhArgExprs map[ast.Expr]*Expr
+
+func vhModelExpr1(c *Comp, in ast.Expr, t xr.Type) *Expr { return vhArgExprs[in] }
